@@ -31,7 +31,8 @@ func genCase(t *rapid.T) replay.Case {
 	c.Cfg = gen.GenOutCfg(t, &yes, nil)
 	c.Cmds = gen.GenStream(t, c.Cfg, gen.StreamOpts{MaxCmds: 22, TxnBias: 3, SelectBias: 2})
 	c.Sched = gen.GenSchedule(t, c.Cfg, false)
-	if rapid.IntRange(0, 4).Draw(t, "pingIdle") == 0 {
+	if rapid.IntRange(0, 4).Draw(t, "pingIdle") == 0 || (len(c.Cfg.DbBlacklist) > 0 && rapid.Bool().Draw(t, "pingIdleInBlacklistedDb")) {
+		// (with a database blacklist: keep-alives also arrive while the source stands in a blacklisted database)
 		// an idle master: keep-alive PINGs surrounded by idle time, in front of SELECT / MULTI
 		c.Cmds, c.Sched = gen.PingIdle(t, c.Cfg, c.Cmds)
 	}
@@ -107,7 +108,13 @@ func judge(tr *replay.Trace, cfg gen.OutCfg) []failure {
 			}
 			sig := "mismatch-in-run"
 			if k > 0 && srcDBBlacklistedAt(m, cfg, run.FeedFrom) {
-				// known root cause: the stored position does not record that the source was inside a blacklisted db
+				// known root cause: the stored position does not record that the source was inside a blacklisted db. On the unchanged tree the
+				// position can only get INTO such a stretch behind a transaction bracket (brackets are forwarded from blacklisted dbs since
+				// e480ad0); a position behind anything else (a keep-alive PING, a filtered command) is another defect
+				if nm := nameEndingAt(m, run.FeedFrom); nm != "multi" && nm != "exec" {
+					fs = append(fs, failure{"position-advanced-inside-blacklisted-db:" + nm, fmt.Sprintf("run %d resumes at offset %d, the end of a %q that the source sent while its current db was blacklisted: nothing of such a stretch but transaction brackets may move the stored position; the restarted tool executed %s although the reference expects %s next", k, run.FeedFrom, nm, showD(g), showE(e))})
+					return fs
+				}
 				fs = append(fs, failure{"resume-inside-blacklisted-db", fmt.Sprintf("run %d resumes at offset %d where the source's current db is blacklisted; the restarted tool no longer knows that and executed %s (in the db the checkpoint was found in) although the reference expects %s next", k, run.FeedFrom, showD(g), showE(e))})
 				return fs
 			}
@@ -154,6 +161,15 @@ func judge(tr *replay.Trace, cfg gen.OutCfg) []failure {
 }
 
 // srcDBBlacklistedAt: is the source database in effect at offset off (per the reference model) a blacklisted one?
+func nameEndingAt(m *gen.Model, off int64) string {
+	for i, e := range m.Ends {
+		if e == off && i < len(m.Names) {
+			return m.Names[i]
+		}
+	}
+	return "?"
+}
+
 func srcDBBlacklistedAt(m *gen.Model, cfg gen.OutCfg, off int64) bool {
 	db := -1
 	for i, e := range m.Ends {
